@@ -21,7 +21,7 @@ pub fn safe_math_optimization(source_unit: SourceUnit, pre_080: bool) -> HashSet
     if let Some(solidity_version) =
         utils::get_solidity_version_from_source_unit(source_unit.clone())
     {
-        if (pre_080 && solidity_version.1 < 8) || (!pre_080 && solidity_version.1 >= 8) {
+        if (pre_080 && solidity_version < (0, 8, 0)) || (!pre_080 && solidity_version >= (0, 8, 0)) {
             //if using safe math
             if check_if_using_safe_math(source_unit.clone()) {
                 //get all locations that safe math functions are used
